@@ -298,7 +298,7 @@ Proof.
     destruct (sprintf_refines L HL s x Hs) as (s' & E & A). fin_upd E Ho. assumption.
   - (* sprintf with a failing conversion *)
     cbn [step]. unfold upd, sprintf_fail.
-    pose proof (glibc_partial_len L HL wide x) as Hw.
+    pose proof (glibc_partial_len L wide x) as Hw.
     rewrite mcpy_blit by len_side. cbn [bind]. rewrite (fin_blit L HL) by len_side. cbn [bind].
     eexists _, _, _; split; [reflexivity|]. split; [|symmetry; apply (cut_abs _ Ho)].
     unfold abs, cut. cbn [buf len]. rewrite !take_0. reflexivity.
